@@ -518,6 +518,10 @@ func genDocs(tier string, rng *lib.Rand, search bool) []docCase {
 
 func main() {
 	f := lib.ParseFlags()
+	encx.Supervise(f.Out, rule, func() { run(f) })
+}
+
+func run(f lib.Flags) {
 	res := lib.NewResult(rule)
 	rng := lib.NewRand(f.Seed)
 	drv, err := lib.StartDrv(f.Drv, "C01")
@@ -549,6 +553,9 @@ func main() {
 		}
 	}
 	for i, c := range ps {
+		if i%64 == 0 {
+			encx.Inflight(c)
+		}
 		impl := runPS(c)
 		checkPSMonitor(res, c, impl)
 		nontrivial := c.Len > 0 || c.Script.Term != "eof"
@@ -597,6 +604,9 @@ func main() {
 		}
 	}
 	for i, c := range rh {
+		if i%16 == 0 {
+			encx.Inflight(c)
+		}
 		impl := runRH(c)
 		res.Count(lines[i], true)
 		if strings.HasPrefix(impl, "ok") {
@@ -629,6 +639,7 @@ func main() {
 		}
 	}
 	for i, c := range docs {
+		encx.Inflight(c)
 		checkDoc(res, drv, real, c, rng, i)
 	}
 	if real {
@@ -692,6 +703,10 @@ func checkPSMonitor(res *lib.Result, c psCase, impl string) {
 }
 
 func checkDoc(res *lib.Result, drv *lib.Drv, real bool, c docCase, rng *lib.Rand, idx int) {
+	if encx.TooStuck() {
+		res.Hit("doc.skipped-after-timeouts")
+		return
+	}
 	o := runDoc(c)
 	key, _ := json.Marshal(c)
 	res.Count(string(key), true)
@@ -801,7 +816,7 @@ func checkDoc(res *lib.Result, drv *lib.Drv, real bool, c docCase, rng *lib.Rand
 		}
 	}
 	// T2b: the Lean specification encoder reproduces the document byte for byte
-	if real && ierr == nil {
+	if real && len(im.NP) > 0 {
 		line := fmt.Sprintf("enc fk=%s np=%s wfk=%s kw=%d cph=%d keyname=%s plain=%s",
 			encx.Hex(o.fk), encx.Hex(im.NP), encx.Hex(im.WFK), im.KW, im.Cph, encx.Hex([]byte(im.K)), encx.Hex(p))
 		ans, err := drv.Ask(line)
